@@ -14,6 +14,7 @@ NOT_DECIDED = [
     "slice / OsStr / String::from_utf8 semantics (std)",
 ]
 CONFIG_SENSITIVE = False
+DESUGAR = True
 
 PE = "plist::PlistEntry"
 EFB = "plist::PlistEntry::from_bytes"
@@ -199,12 +200,12 @@ def run(ctx):
             if ok is not None:
                 a = agg_variant(ok)
                 return ("Ok", a[1] if a else None, a[2] if a else ())
+            if is_propagated_err(r):
+                return ("Err", "Utf8", ())      # String::from_utf8(..)? : the conversion's own error, re-raised
             er = unwrap_err(r)
             if er is not None:
                 a = agg_variant(er)
                 return ("Err", a[1] if a else None, a[2] if a else ())
-            if find_calls(r, "from_residual"):
-                return ("Err", "Utf8", ())
             return ("?", None, ())
 
         def lossy(t):
@@ -229,7 +230,11 @@ def run(ctx):
                         # the option text is `args.and_then(OsStr::to_str)`: decided on that value's state
                         sc = [cc for cc in p.conds() if cc.term[0] == "discr" and is_call(cc.term[1], "Option::and_then", "OsStr::to_str")]
                         optlit = [x for x in true_str_lits(p)[0] if not x[0].startswith("@")]
-                        if not sc:
+                        argabs = al is not None and is_none(p.env.get(al)) or al is not None and any(cc.term == ("discr", p.env.get(al)) and (cc.fact == ("eq", 0) or (cc.fact[0] == "ne" and 1 in cc.fact[1])) for cc in p.conds())
+                        if not sc and argabs:
+                            # with combinators evaluated, `args.and_then(..)` on the path where args is None is simply None: no argument
+                            g = (kind, name) == ("Err", "IncorrectArguments")
+                        elif not sc:
                             g = False
                             why = "the option text is not taken from args.and_then(OsStr::to_str)"
                         else:
@@ -270,7 +275,7 @@ def run(ctx):
                                     if not g:
                                         why = "payload %s is not OsString::from(<argument bytes>)" % term_str(pay)
                                 else:
-                                    g = bool(find_calls(pay, "String::from_utf8")) and bool(find_calls(pay, "Try>::branch")) and src_ok and not lossy(pay)
+                                    g = bool(find_calls(pay, "String::from_utf8")) and has_try(pay) and src_ok and not lossy(pay)
                                     if not g:
                                         why = "payload %s is not String::from_utf8(<argument bytes>)?" % term_str(pay)
                     if not g:
@@ -409,7 +414,7 @@ def run(ctx):
         for bb, (e, p) in pushes.items():
             v = e.args[1]
             fb = find_calls(v, EFB)
-            ok = len(fb) >= 1 and bool(find_calls(v, "Try>::branch"))
+            ok = len(fb) >= 1 and has_try(v)
             if ok:
                 sl = strip_refs(call_args(fb[0])[0])
                 ok = is_call(sl, "ops::Index>::index", "Index<I> for [T]>::index") and strip_refs(call_args(sl)[0]) == ("param", 1)
